@@ -66,6 +66,7 @@ from spyne.model import Any, ModelBase, Array, Iterable, ComplexModelBase, \
     XmlAttribute
 from spyne.model.binary import BINARY_ENCODING_BASE64
 from spyne.model.enum import EnumBase
+from spyne.model.primitive import AnyUri
 
 from spyne.protocol import ProtocolBase
 
@@ -109,6 +110,19 @@ def _is_substitutable(newclass, cls):
         c = getattr(c, '__extends__', None)
 
     return issubclass(newclass, cls)
+
+
+def _collapse_white_space(cls, text):
+    """XML Schema reads the literals of every simple type other than xs:string
+    and what is derived from it with the white space around them removed."""
+
+    if text is None:
+        return None
+
+    if issubclass(cls, (Unicode, EnumBase)) and not issubclass(cls, AnyUri):
+        return text
+
+    return text.strip(' \t\r\n')
 
 
 def cleanup_namespaces(elt):
@@ -1058,16 +1072,17 @@ class XmlDocument(SubXmlBase):
         if cls_attrs._xml_tag_body_as is not None:
             for xtba_key, xtba_type in cls_attrs._xml_tag_body_as:
                 xtba_attrs = self.get_cls_attrs(xtba_type.type)
+                elt_text = _collapse_white_space(xtba_type.type, elt.text)
 
                 if self.validator is self.SOFT_VALIDATION and not (
-                      xtba_type.type.validate_string(xtba_type.type, elt.text)):
-                    raise ValidationError(elt.text)
+                      xtba_type.type.validate_string(xtba_type.type, elt_text)):
+                    raise ValidationError(elt_text)
 
                 if issubclass(xtba_type.type, (ByteArray, File)):
-                    value = self.from_unicode(xtba_type.type, elt.text,
+                    value = self.from_unicode(xtba_type.type, elt_text,
                                                         self.binary_encoding)
                 else:
-                    value = self.from_unicode(xtba_type.type, elt.text)
+                    value = self.from_unicode(xtba_type.type, elt_text)
 
                 if self.validator is self.SOFT_VALIDATION and not (
                           xtba_type.type.validate_native(xtba_type.type, value)):
@@ -1126,7 +1141,8 @@ class XmlDocument(SubXmlBase):
             if not issubclass(member, XmlAttribute):
                 continue
 
-            value_str = elt.attrib[attr_name]
+            value_str = _collapse_white_space(member.type,
+                                                         elt.attrib[attr_name])
 
             if self.validator is self.SOFT_VALIDATION and not (
                            member.type.validate_string(member.type, value_str)):
@@ -1230,6 +1246,8 @@ class XmlDocument(SubXmlBase):
         if s is None:
             s = ''
 
+        s = _collapse_white_space(cls, s)
+
         if self.validator is self.SOFT_VALIDATION and not (
                                                 cls.validate_string(cls, s)):
             raise ValidationError(s)
@@ -1243,11 +1261,13 @@ class XmlDocument(SubXmlBase):
         return retval
 
     def base_from_element(self, ctx, cls, element):
-        if self.validator is self.SOFT_VALIDATION and not (
-                                        cls.validate_string(cls, element.text)):
-            raise ValidationError(element.text)
+        text = _collapse_white_space(cls, element.text)
 
-        retval = self.from_unicode(cls, element.text)
+        if self.validator is self.SOFT_VALIDATION and not (
+                                                cls.validate_string(cls, text)):
+            raise ValidationError(text)
+
+        retval = self.from_unicode(cls, text)
 
         if self.validator is self.SOFT_VALIDATION and not (
                                             cls.validate_native(cls, retval)):
@@ -1256,11 +1276,13 @@ class XmlDocument(SubXmlBase):
         return retval
 
     def byte_array_from_element(self, ctx, cls, element):
-        if self.validator is self.SOFT_VALIDATION and not (
-                                        cls.validate_string(cls, element.text)):
-            raise ValidationError(element.text)
+        text = _collapse_white_space(cls, element.text)
 
-        retval = self.from_unicode(cls, element.text, self.binary_encoding)
+        if self.validator is self.SOFT_VALIDATION and not (
+                                                cls.validate_string(cls, text)):
+            raise ValidationError(text)
+
+        retval = self.from_unicode(cls, text, self.binary_encoding)
 
         if self.validator is self.SOFT_VALIDATION and not (
                                             cls.validate_native(cls, retval)):
